@@ -157,9 +157,14 @@ def _solve_one(i):
     except z3.Z3Exception as e:
         return (i, "error", time.time() - t0, "z3", str(e), None)
     if r == z3.unknown and not ob.expect_sat and _CFG.get("cvc5", True):
+        # an early, short cvc5 attempt: it decides many of z3's unknowns in well under a second
+        r2, d2 = run_cvc5(s.to_smt2(), 8)
+        if r2 == "unsat":
+            return (i, "unsat", time.time() - t0, "cvc5", d2, None)
+    if r == z3.unknown and not ob.expect_sat and _CFG.get("cvc5", True):
         # schedule: z3 3 s -> z3 with two other random seeds (3 s each; quantifier instantiation is heuristic and a
         # different seed often succeeds at once) -> cvc5 (full budget) -> z3 (full budget)
-        for seed in (7, 42):
+        for seed in (1, 2, 3, 7, 42):
             s.set("random_seed", seed)
             s.set("smt.random_seed", seed) if False else None
             try:
